@@ -14,7 +14,7 @@ EXPLANATION = (
     "exactly under `Gregorian scale && BYEASTER has members`; BYEASTER's parser guard lies inside the container's domain; the business-day "
     "letter and the B+/B- direction forms are parsed. R17.3 carry pairs: where a month variable carries into a year variable, calendar "
     "helpers taking (year, month) are handed that pair, not the starting year.")
-NOT_DECIDED = "the computus (Easter date), the business-day arithmetic of shift() — all value-level; the behaviour itself"
+NOT_DECIDED = "the business-day arithmetic of shift() over candidate sets (value-level); the computus is decided for the 199 years of the range only; the behaviour itself"
 TRUSTED = ["clang 14 parser/CFG builder", "echse-facts extractor", "python rule engines in /verif/sa"]
 LEVEL_TEXT = ("Static verdict on narrow necessary clauses of C17 only: writer/reader agreement of the packed SHIFT value, the order of the "
               "BYSETPOS/SHIFT/guard stages, reachability and guard of the BYEASTER expansion. The Easter computus and business-day "
